@@ -383,6 +383,8 @@ var opNames = map[*hclsyntax.Operation]string{
 
 func ctyLit(v cty.Value) string {
 	switch {
+	case !v.IsKnown():
+		return "?unknown"
 	case v.IsNull():
 		return "Z"
 	case v.Type() == cty.Number:
@@ -1227,6 +1229,10 @@ func runC18(c *Ctx) {
 			if d > 0 {
 				return gen.Pick(r, []*xnode{
 					{k: "I", kids: []*xnode{{k: "V", s: "any"}, genNum(0)}},
+					// keys that are templates: a literal prefix and an interpolation, an interpolation only, a literal only
+					{k: "I", kids: []*xnode{{k: "V", s: gen.Pick(r, []string{"obj", "obj", "mp", "any"})}, {k: "P", kids: []*xnode{{k: "S", s: gen.Pick(r, []string{"na", "z", "a"})}, {k: "C", kids: []*xnode{{k: "V", s: "b1"}, {k: "S", s: gen.Pick(r, []string{"me", "z", ""})}, {k: "S", s: "q"}}}}}}},
+					{k: "I", kids: []*xnode{{k: "V", s: gen.Pick(r, []string{"obj", "mp"})}, {k: "P", kids: []*xnode{{k: "V", s: "s1"}}}}},
+					{k: "I", kids: []*xnode{{k: "V", s: gen.Pick(r, []string{"obj", "mp"})}, {k: "C", kids: []*xnode{genBool(0), {k: "S", s: "a"}, {k: "S", s: "name"}}}}},
 					{k: "A", s: gen.Pick(r, []string{"a", "name", "nope"}), kids: []*xnode{{k: "V", s: gen.Pick(r, []string{"obj", "any"})}}},
 					{k: "C", kids: []*xnode{genBool(d - 1), gen.Pick(r, []func(int) *xnode{genNum, genBool, genStr})(d - 1), gen.Pick(r, []func(int) *xnode{genNum, genBool, genStr, func(int) *xnode { return &xnode{k: "Z"} }})(d - 1)}},
 				})
